@@ -186,3 +186,57 @@ Definition parent_hash_case (a : N) (tree_hex : string) : N :=
       if all_parents_valid (alg a) nodes (depth_for 40 0 leaves) 0 then 0 else 1
   | None => 2
   end.
+
+(* ------------------------------------------------------------------------------------------
+   The member's whole hash cache (TreeKemPublic::tree_hashes.current, one entry per node of the full
+   tree) against the hashes of all subtrees recomputed from scratch from the member's own node vector.
+   Both are read from the state snapshot of the member (Snapshot -> RawGroupState -> TreeKemPublic),
+   decoded with the generated descriptor. *)
+Section ALL.
+  Variable H : hash_alg.
+  Variable nodes : list val.
+  (* hash of the subtree (k, j) and the hashes of all nodes below it, keyed by node index *)
+  Fixpoint subtree_hashes (k : nat) (j : N) : option (list N * list (N * list N)) :=
+    match k with
+    | O => match opt_leaf_bytes nodes (2 * j) with
+           | Some b => let h := h_fun H ([1] ++ u32be j ++ b) in Some (h, [(2 * j, h)])
+           | None => None end
+    | S k' =>
+        match opt_parent_bytes nodes (node_pos (N.of_nat k) j), subtree_hashes k' (2 * j), subtree_hashes k' (2 * j + 1) with
+        | Some b, Some (l, ll), Some (r, rl) =>
+            let h := h_fun H ([2] ++ b ++ vbytes l ++ vbytes r) in Some (h, (node_pos (N.of_nat k) j, h) :: ll ++ rl)
+        | _, _, _ => None
+        end
+    end.
+End ALL.
+
+Definition val_bytes (v : val) : list N := match v with VBytes b => b | _ => [] end.
+
+(* (node vector, hash cache) of a member's snapshot *)
+Definition snapshot_tree (bytes : list N) : option (list val * list (list N)) :=
+  match decode T_Snapshot None bytes with
+  | DOk (VCons _ (VCons (VCons _ (VCons _ (VCons _ (VCons (VCons _ (VCons nodes (VCons (VCons hashes _) _))) _)))) _), _) =>
+      Some (chain_to_list nodes, map val_bytes (chain_to_list hashes))
+  | _ => None
+  end.
+
+(* 0 = every cache entry is the from-scratch hash of its subtree and the cache has one entry per node of the
+   full tree; 1 = an entry differs or the cache has the wrong length; 2 = undecodable; 3 = the cache is empty
+   (never computed yet) *)
+Definition cache_case (a : N) (snapshot_hex : string) : N :=
+  match snapshot_tree (unhex snapshot_hex) with
+  | Some (nodes, cache) =>
+      match cache with
+      | [] => 3
+      | _ =>
+        let leaves := N.of_nat (List.length nodes) / 2 + 1 in
+        let d := depth_for 40 0 leaves in
+        match subtree_hashes (alg a) nodes d 0 with
+        | Some (_, all) =>
+            if Nat.eqb (List.length cache) (List.length all) &&
+               forallb (fun ih => list_eqb (snd ih) (nth (N.to_nat (fst ih)) cache [])) all then 0 else 1
+        | None => 2
+        end
+      end
+  | None => 2
+  end.
